@@ -186,7 +186,11 @@ Diff(t, R, name) ==
 Drift(t) ==
   /\ ~t.ood
   /\ \E s \in 1..NSites(t) :
-       LET p == IF IsCall(t) THEN CallPredict(At(t.cfg, s)) ELSE Predict(AtSite(t.cfg, s))
+       LET \* histories of several contexts: the generator's leaf argument is what the table
+           \* model of LeafHist.tla predicts (a function unknown to the context counts as a leaf)
+           c16 == IF "mode" \in DOMAIN t.cfg /\ t.cfg.mode = "ctxs"
+                  THEN [AtSite(t.cfg, s) EXCEPT !.leaf = t.cfg.sites[s].skip] ELSE AtSite(t.cfg, s)
+           p == IF IsCall(t) THEN CallPredict(At(t.cfg, s)) ELSE Predict(c16)
            o == Obs(t, s)
        IN  \/ p.exc # t.exc
            \/ /\ t.exc = ""
